@@ -88,6 +88,7 @@ class Ctx:
     def reset_run(self, prefix):
         self.prefix = list(prefix)
         self.cursor = 0
+        self.ob_seq = -1
         self.pc = []  # decisions taken (z3 Bool)
         self.defs = list(PI_AXIOMS)  # definitions of fresh symbols / assumed preconditions / axiom instances
         self.foralls = []  # (arity, extents, closure) universally quantified facts
@@ -411,13 +412,158 @@ class Ctx:
             meta = dict(meta or {})
             meta["sum_congruence"] = "inconclusive"
         hyps = relevant(self.hypotheses(extra_terms), goal)
+        meta = dict(meta or {})
+        meta["seq"] = self.ob_seq = getattr(self, "ob_seq", -1) + 1
+        tgt = getattr(self, "validate_target", None)
+        if tgt is not None and tgt == (name, meta["seq"]):
+            self.validation_result = self._validate_here(hyps, goal)
         sig = self._sigma_export(hyps, goal)
         if sig is not None:
-            meta = dict(meta or {})
             meta["sigma_smt2"], meta["sigma_n"], meta["sigma_nested"] = sig
         self.obligations.append(
             Obligation(name, hyps, goal, list(self.prefix[: self.cursor]), kind, meta, getvals)
         )
+
+    def _validate_here(self, hyps, goal, rounds=6, timeout_ms=20000, max_terms=300, max_instances=4000):
+        """called while this path is being re-explored for ONE obligation the solvers answered `sat` to.  The obligation that was
+        solved is quantifier-free: finite sums are unrelated constants in it and every universal fact is present only at the index
+        terms that occurred.  Here the counter-model is confronted with what was left out: each sum is evaluated term by term, each
+        universal fact at EVERY index of its (model-sized) range.  Whatever the model violates is a valid lemma: added, and the
+        query repeated.  'genuine': a counter-model that respects all of it; 'refuted': none exists; 'unknown': no verdict."""
+        import itertools as _it
+        from fractions import Fraction
+        try:
+            sol = z3.Solver()
+            sol.set("timeout", timeout_ms)
+            for h in hyps:
+                sol.add(h)
+            sol.add(z3.Not(goal))
+            names, seen, stack = set(), set(), [goal] + list(hyps)
+            while stack:
+                t = stack.pop()
+                i = t.get_id()
+                if i in seen:
+                    continue
+                seen.add(i)
+                if z3.is_app(t):
+                    if t.decl().kind() == z3.Z3_OP_UNINTERPRETED:
+                        names.add(t.decl().name())
+                    stack.extend(t.children())
+            atoms = [a for a in self.sigma_atoms if a.sym.decl().name() in names]
+
+            def num(m, e):
+                v = z3.simplify(m.eval(e, model_completion=True))
+                if z3.is_int_value(v):
+                    return Fraction(v.as_long())
+                if z3.is_rational_value(v):
+                    return Fraction(v.numerator_as_long(), v.denominator_as_long())
+                return None
+            tried = 0
+            all_ext = {}
+            for a in atoms:
+                for e in (a.extent,):
+                    if z3.is_expr(e) and not z3.is_int_value(e):
+                        all_ext[e.get_id()] = e
+            for fa in self.foralls:
+                for n in fa["extents"]:
+                    e = unwrap(n)
+                    if z3.is_expr(e) and not z3.is_int_value(e):
+                        all_ext[e.get_id()] = e
+            for _ in range(rounds):
+                # small counter-models first: they are the ones that can be completed
+                r, m = None, None
+                for cap in (3, 6, 12, None):
+                    sol.push()
+                    if cap is not None:
+                        for e in all_ext.values():
+                            sol.add(e <= cap)
+                    r = sol.check()
+                    if r == z3.sat:
+                        m = sol.model()
+                    sol.pop()
+                    if r == z3.sat or (cap is None):
+                        break
+                if r == z3.unsat:
+                    return "refuted" if tried else "unknown"
+                if r != z3.sat:
+                    if os.environ.get("VERIF_DEBUG"):
+                        print("_validate_here: solver", r, sol.reason_unknown())
+                    return "unknown"
+                # the SIZES of this counter-model (ranges of the sums, extents of the universal facts) are kept; within them every
+                # sum is written out and every universal fact instantiated at every index: a finite, complete query
+                complete, facts, sizes = True, [], {}
+
+                def size_of(e):
+                    e = unwrap(e)
+                    if isinstance(e, int):
+                        return Fraction(e)
+                    v = num(m, e)
+                    if v is not None:
+                        sizes[e.get_id()] = (e, int(v))
+                    return v
+                k0 = z3.Int("sk0")
+                for a in atoms:
+                    if a.depth != 0 or a.bound:
+                        complete = False
+                        continue
+                    n0, l0 = size_of(a.extent), size_of(a.lo)
+                    if n0 is None or l0 is None or n0 - l0 > max_terms:
+                        complete = False
+                        continue
+                    terms = [z3.substitute(to_real(a.core), (k0, z3.IntVal(i))) for i in range(int(l0), int(n0))]
+                    facts.append(a.sym == (z3.Sum(terms) if terms else z3.RealVal(0)))
+                budget = max_instances
+                self._instantiating = True
+                try:
+                    for fa in self.foralls:
+                        ext = [size_of(n) for n in fa["extents"]]
+                        if any(v is None for v in ext):
+                            complete = False
+                            continue
+                        size = 1
+                        for v in ext:
+                            size *= max(int(v), 0)
+                        if size > budget:
+                            complete = False
+                            continue
+                        budget -= size
+                        for combo in _it.product(*[range(int(v)) for v in ext]):
+                            try:
+                                body = unwrap(fa["closure"](*[Sym(z3.IntVal(i)) for i in combo]))
+                            except PathAbort:
+                                continue
+                            except Unsupported:
+                                complete = False
+                                continue
+                            if isinstance(body, bool):
+                                if not body:
+                                    return "unknown"      # (an instance that is literally False: inconsistent hypotheses)
+                                continue
+                            facts.append(body)
+                finally:
+                    self._instantiating = False
+                fix = [e == v for e, v in sizes.values()]
+                tried += 1
+                sol.push()
+                for f_ in fix + facts:
+                    sol.add(f_)
+                r2 = sol.check()
+                sol.pop()
+                if os.environ.get("VERIF_DEBUG"):
+                    print(f"_validate_here: sizes={[v for _, v in sizes.values()]} facts={len(facts)} complete={complete} -> {r2}")
+                if r2 == z3.sat:
+                    return "genuine" if complete else "unknown"
+                if r2 != z3.unsat:
+                    return "unknown"
+                if not fix:
+                    return "refuted"
+                sol.add(z3.Not(z3.And(*fix)))          # no counter-model of these sizes: look at others
+            return "refuted"
+        except Exception:
+            if os.environ.get("VERIF_DEBUG"):
+                import traceback
+                traceback.print_exc()
+            return "unknown"
 
     def _sigma_export(self, hyps, goal):
         """the finite sums this obligation talks about (symbol, summand, range), as SMT-LIB text: a `sat` answer treats each
